@@ -22,6 +22,24 @@ pub fn tokens(s: &str) -> Vec<Tk> {
     out
 }
 
+/// the non-comment tokens of `s`, with `Tk::Punct('\u{0}')` standing for "separated from the next token by white space and / or comments"
+/// (runs collapsed, none at the ends)
+pub fn separated(s: &str) -> Vec<Tk> {
+    let b: Vec<char> = s.chars().collect(); let mut i = 0; let mut out: Vec<Tk> = vec![]; let mut sep = false;
+    let push = |out: &mut Vec<Tk>, sep: &mut bool, t: Tk| { if *sep && !out.is_empty() { out.push(Tk::Punct('\u{0}')); } *sep = false; out.push(t); };
+    while i < b.len() {
+        let c = b[i];
+        if c.is_whitespace() { i += 1; sep = true; }
+        else if c == '/' && i + 1 < b.len() && b[i + 1] == '/' { while i < b.len() && b[i] != '\n' { i += 1; } sep = true; }
+        else if c == '/' && i + 1 < b.len() && b[i + 1] == '*' { i += 2; while i + 1 < b.len() && !(b[i] == '*' && b[i + 1] == '/') { i += 1; } i = (i + 2).min(b.len()); sep = true; }
+        else if c == '"' { let st = i; i += 1; while i < b.len() && b[i] != '"' { if b[i] == '\\' { i += 1; } i += 1; } i = (i + 1).min(b.len()); push(&mut out, &mut sep, Tk::Str(b[st..i].iter().collect())); }
+        else if c == '\\' { let st = i; while i < b.len() && !b[i].is_whitespace() { i += 1; } push(&mut out, &mut sep, Tk::Word(b[st..i].iter().collect())); }
+        else if c.is_alphanumeric() || c == '_' || c == '$' || c == '`' { let st = i; i += 1; while i < b.len() && (b[i].is_alphanumeric() || b[i] == '_' || b[i] == '$') { i += 1; } push(&mut out, &mut sep, Tk::Word(b[st..i].iter().collect())); }
+        else { push(&mut out, &mut sep, Tk::Punct(c)); i += 1; }
+    }
+    out
+}
+
 /// everything from a kept `define to the end of its (possibly continued) line is removed before looking for comments
 fn without_define_lines(s: &str) -> String {
     let mut out = String::new(); let mut rest = s;
@@ -47,8 +65,10 @@ pub fn check(c: &gen_pp::Case) -> Result<(bool, bool), String> {
         (Ok(_), Err(y)) => Err(format!("succeeds without strip_comments but fails with it: {}", err_str(&y))),
         (Err(x), Ok(_)) => Err(format!("fails without strip_comments ({}) but succeeds with it", err_str(&x))),
         (Ok((ta, da)), Ok((tb, db))) => {
-            let xa: Vec<Tk> = tokens(ta.text()).into_iter().filter(|t| *t != Tk::Comment).collect();
-            let xb: Vec<Tk> = tokens(tb.text()).into_iter().filter(|t| *t != Tk::Comment).collect();
+            // non-comment tokens WITH their separation: a comment or white space between two tokens separates them in both outputs (the
+            // stripped run leaves one separator byte per comment), and tokens that touch must touch in both — otherwise `+ /**/ +` could become `++`
+            let xa: Vec<Tk> = separated(ta.text());
+            let xb: Vec<Tk> = separated(tb.text());
             if xa != xb {
                 let k = xa.iter().zip(xb.iter()).position(|(p, q)| p != q).unwrap_or(xa.len().min(xb.len()));
                 // D4 duplicates the trailing trivia of a string / escaped identifier (comments and whole directives included); the copy is verbatim in
@@ -82,7 +102,8 @@ pub fn main(args: &[String]) {
         let mut c = gen_pp::gen_case(&mut rng, i, false);
         if i % 3 == 0 {
             // comments as the only separator between two tokens, and next to directives / usages
-            let extra = *rng.pick(&["a/**/b\n", "a// x\nb\n", "x1/* c */y1;\n", "`define Q 1\n`Q/**/z\n", "/* c */`celldefine\n", "p/*1*//*2*/q\n", "`ifdef A/**/\nk\n`endif\n", "m //c\n`timescale 1ns/1ps\n"]);
+            let extra = *rng.pick(&["a/**/b\n", "a// x\nb\n", "x1/* c */y1;\n", "`define Q 1\n`Q/**/z\n", "/* c */`celldefine\n", "p/*1*//*2*/q\n", "`ifdef A/**/\nk\n`endif\n", "m //c\n`timescale 1ns/1ps\n",
+                "a +/* s */+ b;\n", "c &/**/& d;\n", "e </* le */= f;\n", "g */**/* h;\n", "`define E(p) p/**/\n`E(x)b\n", "`define F(p) /**/p\nw`F(+)+\n", "i -// m\n- j;\n"]);
             if let Some(f) = c.files.iter_mut().find(|f| f.0 == c.top) { if let Some(t) = &mut f.1 { t.push_str(extra); } }
             c.flags.push("sole-separator");
         }
